@@ -40,19 +40,68 @@ theorem final_names_complete [DecidableEq α] [DecidableEq γ] (c : Codec α γ)
   · exact Or.inl hn
   · exact Or.inr ⟨hs, by have := h.hdr (by simp [hs]); rw [this, hs]⟩
 
-/-- In every such state the recording is held by a complete file: the uncompressed original, or the complete
-compressed file together with its header (from which `b` is decoded).  The source is never removed before
-its replacement is complete, whatever the sequence of calls and faults. -/
+/-- Histories in which `x.bin` is REPLACED between calls (same shape, other content) while outputs of earlier calls
+(`x.cbin`/`x.ch`, `x.cbin_tmp`, `scratch/x.bin`) are still on disk.  In every state reachable by any sequence of
+rewrites and calls in scope with arbitrary fault points, the CURRENT content of the recording (`Hist.cur`: what the
+last rewrite — or the last successful `decompress_file` — put into `x.bin`) is held by a complete file: `x.bin`
+itself, or the complete `x.cbin` with its header, which then decode to the current content, never to a stale one.
+The source is never removed before a replacement *of its current content* is complete. -/
 theorem source_outlives_replacement [DecidableEq α] [DecidableEq γ] (c : Codec α γ) (hc : c.Lossless)
-    (b : List α) (s0 : Fs α γ) (h0 : Published c b s0) (ops : List Op) (hops : ∀ o ∈ ops, o.inScope) :
-    let s := run c s0 ops
-    recording c s .bin = some b ∨ recording c s .cbin = some b := by
-  intro s
-  have h : Published c b s := published_run c hc b ops s0 h0 hops
+    (b : List α) (s0 : Fs α γ) (h0 : Published c b s0) (evs : List (Event α)) (hev : ∀ e ∈ evs, e.inScope) :
+    let g := runE c { fs := s0, versions := [b], cur := b } evs
+    recording c g.fs .bin = some g.cur ∨ recording c g.fs .cbin = some g.cur := by
+  intro g
+  have h : Versioned c g := versioned_run c hc evs _ (versioned_of_published c b s0 h0) hev
   rcases h.held with hb | ⟨hcb, hch⟩
   · exact Or.inl hb
   · right
-    simp [recording, hcb, hch, map_dec_enc c hc b]
+    simp [recording, hcb, hch, map_dec_enc c hc g.cur]
+
+/-- ...and every file under a final name is absent or the COMPLETE image of some version of the recording (possibly a
+stale one, never a torn one); `x.bin`, when present, has the current content. -/
+theorem final_names_complete_after_rewrites [DecidableEq α] [DecidableEq γ] (c : Codec α γ) (hc : c.Lossless)
+    (b : List α) (s0 : Fs α γ) (h0 : Published c b s0) (evs : List (Event α)) (hev : ∀ e ∈ evs, e.inScope) :
+    let g := runE c { fs := s0, versions := [b], cur := b } evs
+    (g.fs.cbin = none ∨ ∃ v ∈ g.versions, g.fs.cbin = some (v.map c.enc) ∧ g.fs.ch = some (v.map c.enc)) ∧
+    (g.fs.bin = none ∨ g.fs.bin = some g.cur) ∧
+    (g.fs.sbin = none ∨ ∃ v ∈ g.versions, g.fs.sbin = some v) := by
+  intro g
+  have h : Versioned c g := versioned_run c hc evs _ (versioned_of_published c b s0 h0) hev
+  refine ⟨?_, h.bin, h.sbin⟩
+  rcases h.cbin with hn | ⟨v, hv, hs⟩
+  · exact Or.inl hn
+  · exact Or.inr ⟨v, hv, hs, by have := h.hdr (by simp [hs]); rw [this, hs]⟩
+
+/-- Whatever is already in the directory — in particular a complete but STALE `x.cbin`/`x.ch` of an earlier content of
+`x.bin`, or a left-over `x.cbin_tmp` — a `compress_file` that returns normally has published the compressed image of
+the CURRENT `x.bin` (content `l` at the time of the call): `x.cbin` and `x.ch` are those of `l` and decode to `l`. -/
+theorem compress_publishes_current_content [DecidableEq α] [DecidableEq γ] (c : Codec α γ) (hc : c.Lossless)
+    (s : Fs α γ) (fb : DataName) (keep : Bool) (fault : Option Nat)
+    (hok : (compressFile c s fb keep fault).2.2 = .ok) :
+    ∃ l, s.bin = some l ∧ (compressFile c s fb keep fault).1.cbin = some (l.map c.enc) ∧
+      (compressFile c s fb keep fault).1.ch = some (l.map c.enc) ∧
+      recording c (compressFile c s fb keep fault).1 .cbin = some l ∧
+      (compressFile c s fb keep fault).1.cbinTmp = none := by
+  have hcases := compressFile_cases c hc s fb keep fault
+  simp only at hcases
+  rcases hcases with ⟨hr, _⟩ | ⟨l, j, _, _, _, _, _, hr⟩ | ⟨l, _, hl, _, hr⟩
+  · rw [hr] at hok; simp at hok
+  · rw [hr] at hok; simp at hok
+  · exact ⟨l, hl, by simp [hr], by simp [hr], by simp [hr, recording, map_dec_enc c hc], by simp [hr]⟩
+
+/-- Non-vacuity of the histories with rewrites: compress (keeping the original), rewrite `x.bin`, compress in place
+again: the stale `x.cbin` is replaced by the image of the new content before the new `x.bin` is removed. -/
+example :
+    let c : Codec Nat Nat := ⟨(· + 10), (· - 10)⟩
+    let evs : List (Event Nat) := [.call (.compress .bin true none), .rewrite [7, 8, 9], .call (.compress .bin false none)]
+    let g0 : Hist Nat Nat := { fs := initBin [1, 2, 3], versions := [[1, 2, 3]], cur := [1, 2, 3] }
+    (∀ e ∈ evs, e.inScope) ∧
+    (runE c g0 (evs.take 2)).fs.cbin = some [11, 12, 13] ∧ (runE c g0 (evs.take 2)).fs.bin = some [7, 8, 9] ∧
+    (runE c g0 evs).fs.cbin = some [17, 18, 19] ∧ (runE c g0 evs).fs.bin = none ∧ (runE c g0 evs).cur = [7, 8, 9] := by
+  refine ⟨?_, by decide, by decide, by decide, by decide, by decide⟩
+  intro e he
+  simp at he
+  rcases he with rfl | rfl | rfl <;> simp [Event.inScope, Op.inScope]
 
 /-- The two directories a recording normally starts from satisfy the hypothesis of the trace theorems. -/
 theorem clean_directories_published (c : Codec α γ) (b : List α) :
@@ -152,7 +201,8 @@ theorem inplace_decompress_removes_source_only_after_complete [DecidableEq γ]
 
 /-! ## Lossless round trip -/
 
-/-- `compress_file` followed by `decompress_file` reproduces the binary chunk for chunk (byte for byte),
+/-- `compress_file` followed by `decompress_file` reproduces the CURRENT content `b` of `x.bin` chunk for chunk (byte
+for byte), from ANY directory `s` — whatever stale `x.cbin`/`x.ch`/`x.cbin_tmp` of an earlier content it holds —
 for both values of `keep_original` on either side; when the original was kept the decompression needs
 `overwrite=True` (otherwise mtscomp refuses with `ValueError` and nothing changes). -/
 theorem roundtrip [DecidableEq α] [DecidableEq γ] (c : Codec α γ) (hc : c.Lossless) (s : Fs α γ)
